@@ -4,57 +4,75 @@
 package ref
 
 import (
-	"errors"
 	"fmt"
-	"io"
 
 	"github.com/wrgl/wrgl/pkg/objects"
 )
 
 func SeekCommonAncestor(db objects.Store, commits ...[]byte) (baseCommit []byte, err error) {
-	n := len(commits)
-	qs := make([]*CommitsQueue, n)
-	bases := make([][]byte, n)
-	for i, sum := range commits {
-		qs[i], err = NewCommitsQueue(db, [][]byte{sum})
-		if err != nil {
-			return
-		}
-		bases[i] = sum
-	}
-	for {
-		for i := len(bases) - 1; i >= 0; i-- {
-			for j := len(bases) - 1; j >= 0; j-- {
-				if i == j {
-					continue
-				}
-				if qs[j].Seen(bases[i]) {
-					// remove j element
-					copy(bases[j:], bases[j+1:])
-					bases = bases[:len(bases)-1]
-					copy(qs[j:], qs[j+1:])
-					qs = qs[:len(qs)-1]
-					if i > j {
-						i--
-					}
-				}
+	// count, for every commit, how many of the inputs have it in their history
+	// (an input is part of its own history)
+	loaded := map[string]*objects.Commit{}
+	counts := map[string]int{}
+	for _, sum := range commits {
+		seen := map[string]struct{}{}
+		stack := [][]byte{sum}
+		for len(stack) > 0 {
+			b := stack[len(stack)-1]
+			stack = stack[:len(stack)-1]
+			if _, ok := seen[string(b)]; ok {
+				continue
 			}
-		}
-		if len(bases) == 1 {
-			break
-		}
-		eofs := 0
-		for i, q := range qs {
-			bases[i], _, err = q.PopInsertParents()
-			if errors.Is(err, io.EOF) {
-				eofs++
-			} else if err != nil {
-				return nil, err
+			seen[string(b)] = struct{}{}
+			com, ok := loaded[string(b)]
+			if !ok {
+				com, err = objects.GetCommit(db, b)
+				if err != nil {
+					return nil, err
+				}
+				loaded[string(b)] = com
 			}
-		}
-		if eofs == len(qs) {
-			return nil, fmt.Errorf("common ancestor commit not found")
+			counts[string(b)]++
+			stack = append(stack, com.Parents...)
 		}
 	}
-	return bases[0], nil
+	// a common ancestor that is itself a proper ancestor of another common
+	// ancestor is not a merge base
+	dominated := map[string]struct{}{}
+	for s, c := range counts {
+		if c != len(commits) {
+			continue
+		}
+		stack := append([][]byte{}, loaded[s].Parents...)
+		for len(stack) > 0 {
+			b := stack[len(stack)-1]
+			stack = stack[:len(stack)-1]
+			if _, ok := dominated[string(b)]; ok {
+				continue
+			}
+			dominated[string(b)] = struct{}{}
+			stack = append(stack, loaded[string(b)].Parents...)
+		}
+	}
+	// several candidates can only remain after criss-cross merges: prefer the
+	// newest one, then the smaller checksum, so that the choice is deterministic
+	for s, c := range counts {
+		if c != len(commits) {
+			continue
+		}
+		if _, ok := dominated[s]; ok {
+			continue
+		}
+		if baseCommit != nil {
+			cur, cand := loaded[string(baseCommit)], loaded[s]
+			if cur.Time.After(cand.Time) || (cur.Time.Equal(cand.Time) && string(baseCommit) < s) {
+				continue
+			}
+		}
+		baseCommit = []byte(s)
+	}
+	if baseCommit == nil {
+		return nil, fmt.Errorf("common ancestor commit not found")
+	}
+	return baseCommit, nil
 }
